@@ -16,8 +16,10 @@ Notation ix_update := (ix_update folder id folder_eqb id_eqb).
 Notation same_key := (same_key folder id folder_eqb id_eqb).
 Notation has_doc := (has_doc folder id folder_eqb id_eqb).
 Notation count_folder := (count_folder folder id folder_eqb).
-Notation count_kind := (count_kind folder id).
+Notation count_kind := (count_kind folder id folder_eqb).
 Notation count_favs := (count_favs folder id).
+Notation count_tag := (count_tag folder id).
+Notation is_arch := (is_arch folder id folder_eqb).
 
 Section Counters.
 Variable K : Type.
@@ -48,18 +50,46 @@ Proof.
 Qed.
 End Counters.
 
+Lemma N_eqb_spec a b : N.eqb a b = true <-> a = b. Proof. apply N.eqb_eq. Qed.
+Lemma look_bump_all t ts m :
+  look N.eqb t (bump_all ts m) = look N.eqb t m + length (filter (fun k => N.eqb k t) ts).
+Proof.
+  induction ts as [|k ts IH]; cbn [bump_all fold_right filter length]; [lia|].
+  fold (bump_all ts m). rewrite (look_bump _ N.eqb N_eqb_spec), IH.
+  destruct (N.eqb k t); cbn [length]; lia.
+Qed.
+Lemma look_drop_all t ts m :
+  look N.eqb t (drop_all ts m) = look N.eqb t m - length (filter (fun k => N.eqb k t) ts).
+Proof.
+  induction ts as [|k ts IH]; cbn [drop_all fold_right filter length]; [lia|].
+  fold (drop_all ts m). rewrite (look_drop _ N.eqb N_eqb_spec), IH.
+  destruct (N.eqb k t); cbn [length]; lia.
+Qed.
+Lemma find_split (A : Type) (p : A -> bool) l d : find p l = Some d -> length (filter p l) <= 1 ->
+  exists l1 l2, l = l1 ++ d :: l2 /\ filter (fun e => negb (p e)) l = l1 ++ l2.
+Proof.
+  induction l as [|a l IH]; [discriminate|]. cbn [find filter]. destruct (p a) eqn:Ea; cbn [negb].
+  - intros Hf Hl. injection Hf as ->. exists [], l. split; [reflexivity|]. cbn [app length] in *.
+    assert (filter p l = []) as Hnil by (destruct (filter p l); [reflexivity|cbn [length] in Hl; lia]).
+    clear -Hnil. induction l as [|b l IH]; [reflexivity|]. cbn [filter] in *.
+    destruct (p b); [discriminate|]. cbn [negb]. f_equal. apply IH. exact Hnil.
+  - intros Hf Hl. destruct (IH Hf Hl) as (l1 & l2 & -> & H2). exists (a :: l1), l2. split; [reflexivity|].
+    cbn [app]. f_equal. exact H2.
+Qed.
+
 (* the invariant: every counter equals a recount of the documents, and there is at most one
    document per (folder, id) *)
 Definition Inv (x : index) : Prop :=
   (forall f, look folder_eqb f (c_vaults _ _ x) = count_folder f x) /\
   (forall k, look N.eqb k (c_kinds _ _ x) = count_kind k x) /\
   c_favs _ _ x = count_favs x /\
+  (forall t, look N.eqb t (c_tags _ _ x) = count_tag t x) /\
   (forall f i, length (filter (same_key f i) (docs _ _ x)) <= 1).
 
-Lemma inv_empty : Inv (empty_index folder id).
+Lemma inv_new a : Inv (new_index folder id a).
 Proof. repeat split; intros; cbn; lia. Qed.
-
-Lemma N_eqb_spec a b : N.eqb a b = true <-> a = b. Proof. apply N.eqb_eq. Qed.
+Lemma inv_empty : Inv (empty_index folder id).
+Proof. apply inv_new. Qed.
 
 Lemma filter_app_len (A : Type) (f : A -> bool) l d : length (filter f (l ++ [d])) = length (filter f l) + (if f d then 1 else 0).
 Proof. rewrite filter_app, app_length. cbn [filter]. destruct (f d); cbn [length]; lia. Qed.
@@ -70,17 +100,26 @@ Proof.
   intro H. apply orb_false_iff in H. destruct H as [H1 H2]. rewrite H1. apply IH. exact H2.
 Qed.
 
+Lemma count_kind_ext k x y : ix_archive _ _ y = ix_archive _ _ x ->
+  count_kind k y = length (filter (fun d => N.eqb (d_kind _ _ d) k && negb (is_arch x (d_folder _ _ d))) (docs _ _ y)).
+Proof. unfold Search.count_kind, Search.is_arch. intros ->. reflexivity. Qed.
+
 Theorem add_inv x d : Inv x -> Inv (ix_add x d).
 Proof.
-  intros (Hv & Hk & Hf & Hu). unfold Search.ix_add.
+  intros (Hv & Hk & Hf & Ht & Hu). unfold Search.ix_add.
   destruct (has_doc (d_folder _ _ d) (d_id _ _ d) x) eqn:E; [repeat split; assumption|].
-  repeat split; cbn [docs c_vaults c_kinds c_favs].
+  repeat split; cbn [docs c_vaults c_kinds c_favs c_tags].
   - intro f. rewrite (look_bump _ folder_eqb folder_eqb_spec). unfold Search.count_folder. cbn [docs].
     rewrite filter_app_len, Hv. unfold Search.count_folder. destruct (folder_eqb (d_folder _ _ d) f); lia.
-  - intro k. rewrite (look_bump _ N.eqb N_eqb_spec). unfold Search.count_kind. cbn [docs].
-    rewrite filter_app_len, Hk. unfold Search.count_kind. destruct (N.eqb (d_kind _ _ d) k); lia.
+  - intro k. rewrite (count_kind_ext k x) by reflexivity. cbn [docs].
+    rewrite filter_app_len. specialize (Hk k). rewrite (count_kind_ext k x x eq_refl) in Hk.
+    destruct (is_arch x (d_folder _ _ d)); cbn [negb].
+    + rewrite andb_false_r, Hk. lia.
+    + rewrite (look_bump _ N.eqb N_eqb_spec), Hk, andb_true_r. destruct (N.eqb (d_kind _ _ d) k); lia.
   - unfold Search.count_favs. cbn [docs]. rewrite filter_app_len, Hf. unfold Search.count_favs.
     destruct (d_fav _ _ d); lia.
+  - intro t. rewrite look_bump_all, Ht. unfold Search.count_tag. cbn [docs].
+    rewrite flat_map_app, filter_app, app_length. cbn [flat_map]. rewrite app_nil_r. reflexivity.
   - intros f i. rewrite filter_app_len. specialize (Hu f i).
     destruct (same_key f i d) eqn:Ek; [|lia].
     unfold Search.same_key in Ek. apply andb_true_iff in Ek. destruct Ek as [Ef Ei].
@@ -112,24 +151,29 @@ Qed.
 
 Theorem remove_inv x f i : Inv x -> Inv (ix_remove x f i).
 Proof.
-  intros (Hv & Hk & Hf & Hu). unfold Search.ix_remove.
+  intros (Hv & Hk & Hf & Ht & Hu). unfold Search.ix_remove.
   destruct (find (same_key f i) (docs _ _ x)) as [d|] eqn:E; [|repeat split; assumption].
   assert (same_key f i d = true) as Hd by (apply find_some in E; tauto).
   assert (d_folder _ _ d = f) as Hdf
     by (unfold Search.same_key in Hd; apply andb_true_iff in Hd; apply folder_eqb_spec; tauto).
-  repeat split; cbn [docs c_vaults c_kinds c_favs].
+  repeat split; cbn [docs c_vaults c_kinds c_favs c_tags].
   - intro f'. rewrite (look_drop _ folder_eqb folder_eqb_spec), Hv. unfold Search.count_folder. cbn [docs].
     pose proof (filter_neg_len _ (fun e => folder_eqb (d_folder _ _ e) f') (same_key f i) (docs _ _ x)) as Hl. cbv beta in Hl.
     rewrite (find_some_unique f i x d Hu E (fun e => folder_eqb (d_folder _ _ e) f')) in Hl. rewrite Hdf in Hl.
     destruct (folder_eqb f f'); lia.
-  - intro k. rewrite (look_drop _ N.eqb N_eqb_spec), Hk. unfold Search.count_kind. cbn [docs].
-    pose proof (filter_neg_len _ (fun e => N.eqb (d_kind _ _ e) k) (same_key f i) (docs _ _ x)) as Hl. cbv beta in Hl.
-    rewrite (find_some_unique f i x d Hu E (fun e => N.eqb (d_kind _ _ e) k)) in Hl.
-    destruct (N.eqb (d_kind _ _ d) k); lia.
+  - intro k. specialize (Hk k). rewrite (count_kind_ext k x x eq_refl) in Hk. rewrite (count_kind_ext k x) by reflexivity. cbn [docs].
+    pose proof (filter_neg_len _ (fun e => N.eqb (d_kind _ _ e) k && negb (is_arch x (d_folder _ _ e))) (same_key f i) (docs _ _ x)) as Hl. cbv beta in Hl.
+    rewrite (find_some_unique f i x d Hu E (fun e => N.eqb (d_kind _ _ e) k && negb (is_arch x (d_folder _ _ e)))) in Hl.
+    rewrite Hdf in Hl. destruct (is_arch x f); cbn [negb] in Hl.
+    + rewrite andb_false_r in Hl. lia.
+    + rewrite andb_true_r in Hl. rewrite (look_drop _ N.eqb N_eqb_spec), Hk. destruct (N.eqb (d_kind _ _ d) k); lia.
   - unfold Search.count_favs. cbn [docs].
     pose proof (filter_neg_len _ (d_fav _ _) (same_key f i) (docs _ _ x)) as Hl. cbv beta in Hl.
     rewrite (find_some_unique f i x d Hu E (d_fav _ _)) in Hl. rewrite Hf. unfold Search.count_favs.
     destruct (d_fav _ _ d); lia.
+  - intro t. rewrite look_drop_all, Ht. unfold Search.count_tag. cbn [docs].
+    destruct (find_split _ _ _ _ E (Hu f i)) as (l1 & l2 & H1 & H2). rewrite H2, H1.
+    rewrite !flat_map_app, !filter_app, !app_length. cbn [flat_map]. rewrite filter_app, app_length. lia.
   - intros f' i'. pose proof (filter_neg_len _ (same_key f' i') (same_key f i) (docs _ _ x)) as Hl.
     specialize (Hu f' i'). lia.
 Qed.
